@@ -342,16 +342,25 @@ pub fn script_step(plan: &Plan, script: &mut Script, op: &Op) {
         "FE" => script.fol = Out::Err(Er::Other(op.arg(0) as u8)),
         "FOLLOW" => script.following = true,
         "UNFOLLOW" => script.following = false,
-        "SET" => script.cmd = (op.arg(0) as u8, op.arg(1) as u32),
+        "SET" => set_cmd_in_force(script, op.arg(0) as u8, op.arg(1) as u32),
         "U" => {
             // a followed present command becomes the command in force (if the getter is ok)
             if plan.gets("kind") == "cpid" && script.following {
                 if let Out::Some(_, Val::C(k, b)) = script.fol {
-                    script.cmd = (k, b);
+                    set_cmd_in_force(script, k, b);
                 }
             }
         }
         _ => {}
+    }
+}
+
+/// The command in force changes only when the new one compares unequal (so +0.0 does not
+/// replace -0.0): this is the rule "setting a command equal to the current one changes nothing".
+fn set_cmd_in_force(script: &mut Script, kind: u8, bits: u32) {
+    let same = kind == script.cmd.0 && f32::from_bits(bits) == f32::from_bits(script.cmd.1);
+    if !same {
+        script.cmd = (kind, bits);
     }
 }
 
